@@ -155,6 +155,8 @@ focus(struct initparser *p)
 	case TYPESTRUCT:
 	case TYPEUNION:
 		p->sub->u.mem = p->sub->type->u.structunion.members;
+		if (!p->sub->u.mem)
+			error(&tok.loc, "too many initializers for type");
 		t = p->sub->u.mem->type;
 		break;
 	default:
